@@ -8,6 +8,7 @@ import (
 	"net/http/httptest"
 	"net/url"
 	"os"
+	"sync"
 	"sync/atomic"
 	"time"
 
@@ -75,6 +76,53 @@ type built struct {
 	served   [2]int64         // requests each server (0 = the outermost) has finished with
 	lost     [2]int64         // requests given up on (they never reached their server)
 	cleanup  []func()
+	// measure: record the body size of every response with a status >= 400, per server
+	// (0 = the outermost) - only the error-size probes (errsize.go) switch it on
+	measure bool
+	errMu   sync.Mutex
+	errBody [2][]int64
+}
+
+// sizeWriter counts the bytes of a response body.
+type sizeWriter struct {
+	http.ResponseWriter
+	status int
+	n      int64
+}
+
+func (w *sizeWriter) WriteHeader(c int) {
+	if w.status == 0 {
+		w.status = c
+	}
+	w.ResponseWriter.WriteHeader(c)
+}
+
+func (w *sizeWriter) Write(p []byte) (int, error) {
+	if w.status == 0 {
+		w.status = http.StatusOK
+	}
+	n, err := w.ResponseWriter.Write(p)
+	w.n += int64(n)
+	return n, err
+}
+
+// takeErrBodies returns, per server that answered with an error since the last call, the
+// largest error body it wrote (outermost server first).
+func (b *built) takeErrBodies() []int64 {
+	b.errMu.Lock()
+	defer b.errMu.Unlock()
+	var out []int64
+	for hop := range b.errBody {
+		if len(b.errBody[hop]) > 0 {
+			m := int64(0)
+			for _, n := range b.errBody[hop] {
+				m = max(m, n)
+			}
+			out = append(out, m)
+		}
+		b.errBody[hop] = nil
+	}
+	return out
 }
 
 // countingTransport counts the requests of one client.
@@ -150,8 +198,10 @@ func clientFor(srvURL string, page int, tr http.RoundTripper) ociregistry.Interf
 
 func nolog(string, ...any) {}
 
-func build(s Stack, behind ociregistry.Interface) *built {
-	b := &built{mem: behind}
+func build(s Stack, behind ociregistry.Interface) *built { return buildM(s, behind, false) }
+
+func buildM(s Stack, behind ociregistry.Interface, measure bool) *built {
+	b := &built{mem: behind, measure: measure}
 	b.rec = newRecorder(b.mem)
 	serve := func(backend ociregistry.Interface, o SOpts, hop int) string {
 		h := ociserver.New(backend, serverOptions(o))
@@ -161,6 +211,16 @@ func build(s Stack, behind ociregistry.Interface) *built {
 				atomic.AddInt64(&b.served[hop], 1)
 				atomic.AddInt64(&b.inflight, -1)
 			}()
+			if b.measure {
+				sw := &sizeWriter{ResponseWriter: w}
+				h.ServeHTTP(sw, req)
+				if sw.status >= 400 {
+					b.errMu.Lock()
+					b.errBody[hop] = append(b.errBody[hop], sw.n)
+					b.errMu.Unlock()
+				}
+				return
+			}
 			h.ServeHTTP(w, req)
 		}))
 		b.cleanup = append(b.cleanup, srv.Close)
